@@ -117,6 +117,8 @@ def gen_cases(cfg, tier, seed):
         for si, (shape, S) in enumerate(sets):
             if cfg.set_filter and not cfg.set_filter(kind, shape, S):
                 continue
+            if kind == "FMINDEX" and getattr(cfg, "fm_text_residues", None):
+                S = D.pad_total(S, cfg.fm_text_residues[si % len(cfg.fm_text_residues)])
             params = cfg.params_fn(rnd, kind, len(S))
             r = cfg.make_cmds(rnd, kind, S, params, tier)
             if r is None:
